@@ -3,8 +3,9 @@
    limit d >= 1 (C12_mate_in_one_is_played), and for the unlimited search (C12_mate_in_one_is_played_unlimited):
    if a generated move M of the root mates, the half-move clock is below 99, the mated position is no repetition of a
    position of the history, and the table never answers for the key of the mated position (NoKey: no entry under that
-   key now; Safe: no position of the search tree that has a legal move carries that key, so none is ever written --
-   the engine never stores a mated node, so such an entry can only come from a 64-bit key collision), then the search
+   key now; SafeN fuel: no position within `fuel` plies of the root that has a legal move carries that key, so none is ever
+   written -- the engine never stores a mated node, so such an entry can only come from a 64-bit collision with this ONE key;
+   the fuel may be the smallest for which the search returns, C12_mate_in_one_is_played_any_fuel), then the search
    answers with a mating move and EVERY reported score is MATE_SCORE - 1.  The table may otherwise hold anything:
    misleading entries for every other position, wrong mate distances left by earlier searches.  What makes the root robust
    is proved as a theorem of its own: a value strictly inside the window is honest (C12_value_inside_window_is_honest:
@@ -43,7 +44,7 @@ Theorem C12_mate_in_one_is_played : forall d fuel p hist tt r M,
   InvSR p -> TBnd tt -> Z.of_nat fuel <= 599998 -> halfmoves p < 99 ->
   In M (legal_moves p) -> mates p M ->
   NoRep (makemove true p M) (hash (makemove true p M) :: hist) ->
-  NoKey (hash (makemove true p M)) tt -> Safe (hash (makemove true p M)) p -> 1 <= d ->
+  NoKey (hash (makemove true p M)) tt -> SafeN fuel (hash (makemove true p M)) p -> 1 <= d ->
   root (stop_of (LDepth d)) fuel p hist tt = Some r ->
   (exists bm, rr_best r = Some bm /\ In bm (legal_moves p) /\ mates p bm) /\
   (forall i, In i (rr_infos r) -> i_score i = MATE_SCORE - 1) /\ rr_infos r <> [].
@@ -53,11 +54,31 @@ Theorem C12_mate_in_one_is_played_unlimited : forall fuel p hist tt r M,
   InvSR p -> TBnd tt -> Z.of_nat fuel <= 599998 -> halfmoves p < 99 ->
   In M (legal_moves p) -> mates p M ->
   NoRep (makemove true p M) (hash (makemove true p M) :: hist) ->
-  NoKey (hash (makemove true p M)) tt -> Safe (hash (makemove true p M)) p ->
+  NoKey (hash (makemove true p M)) tt -> SafeN fuel (hash (makemove true p M)) p ->
   root (stop_of LNever) fuel p hist tt = Some r ->
   (exists bm, rr_best r = Some bm /\ In bm (legal_moves p) /\ mates p bm) /\
   (forall i, In i (rr_infos r) -> i_score i = MATE_SCORE - 1) /\ rr_infos r <> [].
 Proof. exact mate_in_one_is_played_unlimited. Qed.
+
+(* the premise on the tree may be taken at the smallest fuel for which the search returns *)
+Theorem C12_mate_in_one_is_played_any_fuel : forall d fuel0 fuel p hist tt r0 r M,
+  InvSR p -> TBnd tt -> Z.of_nat fuel0 <= 599998 -> halfmoves p < 99 ->
+  In M (legal_moves p) -> mates p M ->
+  NoRep (makemove true p M) (hash (makemove true p M) :: hist) ->
+  NoKey (hash (makemove true p M)) tt -> SafeN fuel0 (hash (makemove true p M)) p -> 1 <= d ->
+  root (stop_of (LDepth d)) fuel0 p hist tt = Some r0 -> (fuel0 <= fuel)%nat ->
+  root (stop_of (LDepth d)) fuel p hist tt = Some r ->
+  (exists bm, rr_best r = Some bm /\ In bm (legal_moves p) /\ mates p bm) /\
+  (forall i, In i (rr_infos r) -> i_score i = MATE_SCORE - 1) /\ rr_infos r <> [].
+Proof. exact mate_in_one_is_played_anyfuel. Qed.
+
+(* a closed instance: for 6k1/5ppp/8/8/8/8/8/R3K3 w, a new table and depth limit 3 no premise is left (the tree premise is
+   discharged by enumeration for fuel 3, which suffices for this search) *)
+Theorem C12_closed_instance : forall fuel r, (3 <= fuel)%nat ->
+  root (stop_of (LDepth 3)) fuel ex_pos [hash ex_pos] (tt_new 1) = Some r ->
+  (exists bm, rr_best r = Some bm /\ In bm (legal_moves ex_pos) /\ mates ex_pos bm) /\
+  (forall i, In i (rr_infos r) -> i_score i = MATE_SCORE - 1) /\ rr_infos r <> [].
+Proof. exact ex_closed. Qed.
 
 (* non-vacuity: every computable premise holds of 6k1/5ppp/8/8/8/8/8/R3K3 w - - 0 1 with Ra8, a new table, the history
    of a game that starts there; and the model's run on it reports 999999 three times and answers a1a8 *)
@@ -85,3 +106,5 @@ Print Assumptions C12_mate_in_one_is_played_unlimited.
 Print Assumptions C12_premises_hold_somewhere.
 Print Assumptions C12_example_run.
 Print Assumptions C12_misleading_entry_under_the_mated_key.
+Print Assumptions C12_mate_in_one_is_played_any_fuel.
+Print Assumptions C12_closed_instance.
